@@ -171,6 +171,10 @@ namespace c18
         for(int q = 0; q < 5; ++q) { std::vector<int> c; for(int r = 0; r < 4; ++r) c.push_back(hv[odd ? (ev[q][r] ^ 1) : ev[q][r]]); cells.push_back(c); }
       }
     }
+    // simplex meshes of a single grid cell: optionally keep only the first few simplices (single triangle/tetrahedron,
+    // pairs, ...): the kept ones share the cell diagonal, so the mesh stays connected
+    int kept = 0;
+    if(simplex && ncg == 1 && t.flag(1, 2)) { kept = 1 + t.range(0, (int)cells.size() - 2); cells.resize((size_t)kept); }
     // compact the vertices
     std::vector<int> used((size_t)((n[0] + 1) * (n[1] + 1) * (n[2] + 1)), -1); int nv = 0;
     std::vector<std::array<double, 3>> vtx;
@@ -267,6 +271,7 @@ namespace c18
     if(holes) m.js.set("mask", mask);
     if(simplex && dim == 2) m.js.set("diag", diag);
     if(simplex && dim == 3) m.js.set("split", split == 0 ? "kuhn6" : "alt5");
+    if(kept) m.js.set("kept", kept);
     m.js.set("cells", (long long)m.cells.size());
     m.js.set("geo", geo == 0 ? "unit" : geo == 1 ? "affine" : geo == 2 ? "jitter" : "affine+jitter");
     if(geo == 1 || geo == 3) { J a = J::arr(); for(int r = 0; r < dim; ++r) for(int q = 0; q < dim; ++q) a.add(A[r][q]); m.js.set("A", a); }
